@@ -295,6 +295,18 @@ package types
 //@   results v, ok
 //@   ensures ok == has(r.m, s)
 //@   ensures ok ==> v == r.m[s]
+// Iteration over a record visits exactly its entries; Map hands out a copy.
+//@ func (Record) All
+//@   itercanonical
+//@ spec func iter_Record_All(r Record, k String, v Value) bool = has(r.m, k) && v == r.m[k]
+//@ spec func iter_Record_All_val(r Record, k String) Value = r.m[k]
+//@ func (Record) Map
+//@   props C11
+//@   pure
+//@   results out
+//@   ensures isnil(out) == isnil(r.m) && len(out) == len(r.m)
+//@   ensures forall k String :: has(out, k) == has(r.m, k)
+//@   ensures forall k String :: has(r.m, k) ==> out[k] == r.m[k]
 //@ func (Record) Len
 //@   props C11
 //@   pure
